@@ -160,10 +160,42 @@ def logger_is_built_on_an_open_kmsg_descriptor(ctx):
                   "has no path that escapes silencing - under silence-logs: plugins it appears nowhere" % (a0, a0), witness_path(f, fl, i))
 
 
+def logger_mode_is_fixed_at_construction(ctx):
+    """'Lines of one thread are written in the order that thread produced them': a Log object is either inline or queued for its whole life.
+    The mode flag (and the kmsg descriptor) is written by the constructor only - flipping a queued logger to inline later, in the
+    destructor say, lets a thread's next line overtake its own earlier lines that are still in the queue (and the flag is read by
+    producers without the lock: a write after construction is also a data race)."""
+    P = ctx.prog
+    from ..callgraph import node_writes
+    cls = P.classes.get("Oomd::Log", {})
+    flds = [x["name"] for x in cls.get("fields", []) if x["name"] in ("inline_", "kmsg_fd_") or (x.get("type") or "").replace("const ", "").strip() == "bool"]
+    ctx.counters["logger_mode_fields"] = len(flds)
+    ctx.floor("logger_mode_fields", 1, "mode fields of Log (inline_, kmsg_fd_)")
+    n = 0
+    for f in sorted(P.fns.values(), key=lambda x: (x.file, x.line, x.usr)):
+        owner = f
+        while owner.kind == "lambda" and owner.d.get("parentfn") in P.fns:
+            owner = P.fns[owner.d["parentfn"]]
+        if not f.file.startswith("oomd/") or f.file.endswith("Test.cpp") or owner.kind == "ctor":
+            continue
+        for i in range(len(f.nodes)):
+            if f.nodes[i]["k"] not in ("bin", "call", "un") or f.pos_of(i) is None:
+                continue
+            for t_ in node_writes(f, i):
+                if t_.startswith("F:Oomd::Log::") and t_.split("::")[-1] in flds:
+                    n += 1
+                    ctx.violation("logger-mode-is-fixed-at-construction:%s:%s" % (short(owner), t_.split("::")[-1]), "who-may-write (constructor only)", f.loc(i),
+                                  "%s writes Log::%s after construction (%s): producers read it without the lock to choose between the inline path and the queue, so "
+                                  "a thread's later line can be written before its earlier, still queued ones - and the unsynchronised write is a data race"
+                                  % (owner.pq, t_.split("::")[-1], f.text(i)[:50]))
+    ctx.ok("logger-mode-is-fixed-at-construction", "who-may-write (constructor only)", "oomd/Log.h", "mode fields %s are written by constructors only" % flds)
+
+
 def run(ctx):
     # locals / parameters the rules below refer to by name (a rename makes the analysis 'broken', never a violation)
     P, cg = ctx.prog, ctx.cg
     nothing_logs_before_log_init(ctx)
+    logger_mode_is_fixed_at_construction(ctx)
     logger_is_built_on_an_open_kmsg_descriptor(ctx)
     silencing_is_bracketed(ctx)
     process_logger_is_destroyed_at_exit(ctx)
